@@ -5,6 +5,7 @@
   The Rust code mutates the tree (appends diagnostics); here every function returns the new node.
 -/
 import SplVerif.Model.Parser
+import SplVerif.Model.Doc
 import SplVerif.Gen.Builtins
 
 namespace Spl
@@ -533,5 +534,40 @@ def tokenRangeToText (toks : Array Token) (r : Range) : Except Panic Range :=
 def AnalyzedSource.errors (d : AnalyzedSource) : Except Panic (List SplError) :=
   let toks := d.tokens.toArray
   d.ast.errors.mapM (fun e => (tokenRangeToText toks e.range).map (fun r => { e with range := r }))
+
+end Spl
+
+namespace Spl
+
+/-- One step of the fold in `AnalyzedSource::update`: text, tokens and tree for one change. -/
+def AnalyzedSource.applyChange (d : AnalyzedSource) (c : TextChange) : Except Panic AnalyzedSource :=
+  match replaceRange d.text c.lo c.hi c.text with
+  | none => .error ⟨"slice"⟩
+  | some text' =>
+    match lexUpdate text' d.tokens c.lo c.hi (utf8Len c.text) with
+    | .error e => .error e
+    | .ok (toks', tc) =>
+      match Parse.update d.ast toks' tc with
+      | .error e => .error e
+      | .ok ast' => .ok { d with text := text', tokens := toks', ast := ast' }
+
+/-- `AnalyzedSource::update(changes)`: incremental text/tokens/tree per change, then the table
+    and the semantic analysis are rebuilt from scratch. -/
+def AnalyzedSource.update (d : AnalyzedSource) (changes : List TextChange) : Except Panic AnalyzedSource :=
+  let rec go : AnalyzedSource → List TextChange → Except Panic AnalyzedSource
+    | d, [] => .ok d
+    | d, c :: cs =>
+      match d.applyChange c with
+      | .error e => .error e
+      | .ok d' => go d' cs
+  match go d changes with
+  | .error e => .error e
+  | .ok d1 =>
+    match build d1.ast with
+    | .error e => .error e
+    | .ok (prog1, table) =>
+      match analyze prog1 table with
+      | .error e => .error e
+      | .ok prog2 => .ok { d1 with ast := prog2, table := table }
 
 end Spl
